@@ -109,7 +109,23 @@ def race(op, tries=3):
     return {'replayed': False, 'detail': 'no interleaving of two threads made the public queries disagree: %s' % runs, 'replay': {'race': first, 'op': op}}
 
 
+def race_last_leave(tries=3, iters=20000):
+    """the relations record of a live actor must stay in the reverse index: one thread makes an actor leave its only group while another joins it elsewhere,
+    then the actor exits - it must be in no group afterwards (two real threads, many rounds: the window is a few instructions wide)"""
+    runs = []
+    for t in range(tries):
+        out, _, rc, err = native.run('pg_race', mode='last_leave_join', k=2, iters=iters, timeout=300)
+        if rc != 0:
+            raise RuntimeError('native pg race failed: ' + err[-300:])
+        runs.append({'disagreements': out.get('disagreements'), 'detail': out.get('detail', '')})
+        if out.get('disagreements', '0') != '0':
+            return {'replayed': True, 'detail': 'two threads on the real build (last_leave_join): %s' % out.get('detail'), 'replay': {'race': 'last_leave_join', 'op': 'last_leave_join'}}
+    return {'replayed': False, 'detail': 'no interleaving of the two threads left the stopped actor in a group (%d x %d rounds): %s' % (tries, iters, runs), 'replay': {'race': 'last_leave_join', 'op': 'last_leave_join'}}
+
+
 def replay_json(rp):
+    if rp.get('race') == 'last_leave_join':
+        return race_last_leave()
     if 'race' in rp:
         return race(rp['op'])
     S = rp['S']
